@@ -196,9 +196,11 @@ func (x *runner) runManyFiles(full bool, cats, unions []c03.Config) {
 	r.Set("many_files_additive_operators", opNames)
 	r.Set("many_files_default_parallelism", def)
 
-	// end-to-end pairs and renderings: the four v2 categories + the unions of the older versions
-	// (thorough: every config); intermediate chain pairs: the v2 union
-	e2e := append(append([]c03.Config(nil), unions[:2]...), cats[8:]...)
+	// renderings and single steps: the four v2 categories + the unions of the older versions (thorough: every
+	// config); end-to-end pairs of chains of length 2: the four v2 categories + the unions of the older versions;
+	// intermediate chain pairs: the v2 union
+	e2e2 := append(append([]c03.Config(nil), unions[:2]...), cats[8:]...)
+	e2e := e2e2
 	if full {
 		e2e = append(append([]c03.Config(nil), unions...), cats...)
 	}
@@ -334,7 +336,7 @@ func (x *runner) runManyFiles(full bool, cats, unions []c03.Config) {
 				}
 				name2 := name1 + "," + o2.Name
 				pair := name2 + "  (S2 vs S0)"
-				x.silent("additive-many-files", o1.Name+"+"+o2.Name, pair, baseR, s2R, baseImg, s2Img, e2e)
+				x.silent("additive-many-files", o1.Name+"+"+o2.Name, pair, baseR, s2R, baseImg, s2Img, e2e2)
 				classify(par, baseImg, s2Img)
 				r.Distinct("additive-many-files/" + pair)
 				pair = name2 + "  (S2 vs S1)"
